@@ -40,12 +40,20 @@ package http1
 // step); contDone: the continue step ran - the body was read after "100 Continue", or the continue handler refused.
 // The handler is entered only after that (unless the refusal flag of the loop is down): otherwise the unread body
 // would be parsed as the next request.
+// is11: the request of this iteration is HTTP/1.1; kaSet: "Connection: keep-alive" was put on the response (an
+// HTTP/1.0 peer must be told when the connection stays open, otherwise it waits for the close to end the response)
+//@ ghost var is11 bool
+//@ ghost var kaSet bool
 //@ ghost var mayCont bool
 //@ ghost var contDone bool
 
 //@ func Server.Serve(s, c, conn) err
 //@   props C19, C18, C01, C03, C04
-//@   requires phase == 0 && !rejecting && !closeSet && !notRunningSeen && !runningChecked && !wantClose && !headChecked && !mayCont && !contDone
+//@   requires phase == 0 && !rejecting && !closeSet && !notRunningSeen && !runningChecked && !wantClose && !headChecked && !mayCont && !contDone && !kaSet
+//@   ghostset after RequestHeader.IsHTTP11: is11 = result
+//@   ghostset after ResponseHeader.SetCanonical: kaSet = kaSet || sameSlice(arg2, bytestr.StrKeepAlive)
+//@   assert @C04 before writeResponse: !rejecting && !is11 && !closeSet ==> kaSet
+//@   ghostset after ResetWithoutConn: kaSet = false
 //@   ghostset after Request.MayContinue: mayCont = result
 //@   ghostset after ContinueReadBody: contDone = true
 //@   ghostset after ContinueReadBodyStream: contDone = true
@@ -94,7 +102,7 @@ package http1
 //@   top-ensures traceOpen == 0
 //@   loop 0:
 //@     invariant traceOpen == 0 && evDepth == 0 && !traceStarted
-//@     invariant phase == 0 && !rejecting && !closeSet && !wantClose && !headChecked && !mayCont && !contDone
+//@     invariant phase == 0 && !rejecting && !closeSet && !wantClose && !headChecked && !mayCont && !contDone && !kaSet
 //@     invariant @C18 !notRunningSeen && !runningChecked
 
 //@ func Server.Serve$1()
